@@ -12,7 +12,7 @@ exactly what was pushed — for every argument list, provided struct arguments h
 import ChibiVerif.Lemmas.C20Lemmas
 
 namespace ChibiVerif.Lemmas.C20
-open ChibiVerif ChibiVerif.Codegen ChibiVerif.Effect ChibiVerif.Asm ChibiVerif.Ast
+open ChibiVerif ChibiVerif.Codegen ChibiVerif.Effect ChibiVerif.Asm ChibiVerif.Ast ChibiVerif.C20Scope
 
 /-! ### what an action returns -/
 
